@@ -1,8 +1,37 @@
 import Restli.Proofs.RoundTrip
-/-! The typed tree-level round trip: reading the raw-token tree of what `encode` produced gives
-back the value (normalised: defaults filled, entries in key order, NaN canonical). -/
+/-! The typed tree-level round trip: reading the document tree of what `encode` produced gives
+back the value (normalised: defaults filled, entries in key order, NaN canonical). The proof is
+generic in how a wire format presents a document as a parsed tree (`TreeEnc`: leaf tokens, key
+tokens, leaf semantics) and is instantiated for ROR2 (raw-token trees, any escaper flavour) and for
+JSON (typed tokens). -/
 namespace Restli.Codec
 open Json (JVal)
+
+/-- how a wire format presents a document as a parsed tree -/
+structure TreeEnc where
+  /-- how the reader interprets leaves and member names -/
+  sem : LeafSem
+  /-- the member-name token written for a key -/
+  key : Bytes → Bytes
+  /-- the tree of a leaf document (int, float, bool, string, bytes) -/
+  leaf : Doc → JVal
+
+mutual
+def treeOf (E : TreeEnc) : Doc → JVal
+  | .obj kvs => .obj (treeOfKvs E kvs)
+  | .arr xs => .arr (treeOfItems E xs)
+  | .int v => E.leaf (.int v)
+  | .f64 b => E.leaf (.f64 b)
+  | .bool b => E.leaf (.bool b)
+  | .str b => E.leaf (.str b)
+  | .bytes b => E.leaf (.bytes b)
+def treeOfKvs (E : TreeEnc) : List (Bytes × Doc) → List (Bytes × JVal)
+  | [] => []
+  | (k, v) :: rest => (E.key k, treeOf E v) :: treeOfKvs E rest
+def treeOfItems (E : TreeEnc) : List Doc → List JVal
+  | [] => []
+  | v :: rest => treeOf E v :: treeOfItems E rest
+end
 
 /-! ### sorting commutes with re-labelling the values -/
 
@@ -136,30 +165,30 @@ theorem setEntry_fresh (acc : List (Bytes × Value)) (k : Bytes) (v : Value)
     exact fun e he => h e he
   simp [this]
 
-theorem rawOf_ne_null (esc : Bytes → Bytes) (d : Doc) : rawOf esc d ≠ .null := by
-  cases d <;> simp [rawOf]
+theorem treeOf_ne_null (E : TreeEnc) (hnn : ∀ d, E.leaf d ≠ .null) (d : Doc) : treeOf E d ≠ .null := by
+  cases d <;> simp [treeOf] <;> exact hnn _
 
 /-- reading the members of an object whose every member is readable by the callback (record and
 map modes): the entries come back in document order, every key is seen -/
-theorem readEntries_all (esc : Bytes → Bytes) (tc : TCfg)
-    (hkey : ∀ k, tc.sem.key (ror2Str esc k) = some k) (htr : ∀ sc, tc.tracker.check sc = .no)
+theorem readEntries_all (E : TreeEnc) (hnn : ∀ d, E.leaf d ≠ .null) (tc : TCfg)
+    (hkey : ∀ k, tc.sem.key (E.key k) = some k) (htr : ∀ sc, tc.tracker.check sc = .no)
     (scope' : List Seg) (mode : MapMode) :
     ∀ (ts : List (Bytes × Doc × Value)),
-      (∀ t ∈ ts, ∀ acc seen, treeCallbackWith (fun ty => treeRead tc false (scope' ++ [Seg.key t.1]) ty (rawOf esc t.2.1))
+      (∀ t ∈ ts, ∀ acc seen, treeCallbackWith (fun ty => treeRead tc false (scope' ++ [Seg.key t.1]) ty (treeOf E t.2.1))
           mode acc seen t.1 = .ok (setEntry acc t.1 t.2.2) []) →
       (ts.map (·.1)).Nodup →
       ∀ acc seen, (∀ e ∈ acc, e.1 ∉ ts.map (·.1)) →
-        treeReadEntries tc scope' mode acc seen (rawOfKvs esc (ts.map (fun t => (t.1, t.2.1)))) =
+        treeReadEntries tc scope' mode acc seen (treeOfKvs E (ts.map (fun t => (t.1, t.2.1)))) =
           .ok (acc ++ ts.map (fun t => (t.1, t.2.2)), seen ++ ts.map (·.1)) [] := by
   intro ts
   induction ts with
-  | nil => intro _ _ acc seen _; simp [rawOfKvs, treeReadEntries]
+  | nil => intro _ _ acc seen _; simp [treeOfKvs, treeReadEntries]
   | cons t rest ih =>
     obtain ⟨k, d, x⟩ := t
     intro hgood hnd acc seen hacc
     simp only [List.map_cons, List.nodup_cons] at hnd
-    simp only [List.map_cons, rawOfKvs]
-    rw [treeReadEntries_cons _ _ _ _ _ _ _ _ (rawOf_ne_null esc d), hkey k]
+    simp only [List.map_cons, treeOfKvs]
+    rw [treeReadEntries_cons _ _ _ _ _ _ _ _ (treeOf_ne_null E hnn d), hkey k]
     simp only [htr]
     rw [hgood (k, d, x) (by simp) acc seen]
     have hfresh : ∀ e ∈ acc, e.1 ≠ k := by
@@ -175,16 +204,16 @@ theorem readEntries_all (esc : Bytes → Bytes) (tc : TCfg)
     rw [ih (fun t ht => hgood t (by simp [ht])) hnd.2 (acc ++ [(k, x)]) (seen ++ [k]) hacc']
     simp [List.append_assoc]
 
-theorem readItems_all (esc : Bytes → Bytes) (tc : TCfg) (scope : List Seg) (ty : Ty) :
+theorem readItems_all (E : TreeEnc) (tc : TCfg) (scope : List Seg) (ty : Ty) :
     ∀ (ts : List (Doc × Value)) (idx : Nat),
-      (∀ t ∈ ts, ∀ i, treeRead tc false (scope ++ [Seg.idx i]) ty (rawOf esc t.1) = .ok t.2 []) →
-      treeReadItems tc scope ty idx (rawOfItems esc (ts.map (·.1))) = .ok (ts.map (·.2)) [] := by
+      (∀ t ∈ ts, ∀ i, treeRead tc false (scope ++ [Seg.idx i]) ty (treeOf E t.1) = .ok t.2 []) →
+      treeReadItems tc scope ty idx (treeOfItems E (ts.map (·.1))) = .ok (ts.map (·.2)) [] := by
   intro ts
   induction ts with
-  | nil => intro _ _; simp [rawOfItems, treeReadItems]
+  | nil => intro _ _; simp [treeOfItems, treeReadItems]
   | cons t rest ih =>
     intro idx h
-    simp only [List.map_cons, rawOfItems, treeReadItems]
+    simp only [List.map_cons, treeOfItems, treeReadItems]
     rw [h t (by simp) idx]
     simp only [bindT]
     rw [ih (idx + 1) (fun t' ht' => h t' (by simp [ht']))]
@@ -268,20 +297,25 @@ def norm (env : Env) : Nat → Ty → Value → Value
 
 /-! ### the induction -/
 
+/-- what the round trip needs of a format: keys and leaves read back -/
+structure TreeLaws (E : TreeEnc) : Prop where
+  key_rt : ∀ k, E.sem.key (E.key k) = some k
+  leaf_ne_null : ∀ d, E.leaf d ≠ .null
+  prim_rt : ∀ p v doc, ValOK v → encPrim p v = .ok doc → E.sem.prim p (E.leaf doc) = .ok (normPrim p v) []
+  str_rt : ∀ s, E.sem.str (E.leaf (.str s)) = .ok s []
+
 /-- everything the round trip is relative to -/
 structure RTCtx where
   env : Env
-  esc : Bytes → Bytes
-  plus : Bool
-  E : EscLaws esc plus
-  F : FloatLaws
+  enc : TreeEnc
+  L : TreeLaws enc
   S : SchemaOK env
 
 /-- the writer: no exclusion spec, v2 key sorting -/
 def RTCtx.cfg (X : RTCtx) : EncCfg := { env := X.env, excl := .empty, sortKeys := true }
 /-- the matching reader -/
 def RTCtx.tc (X : RTCtx) (ign : Nat) : TCfg :=
-  { env := X.env, tracker := { excl := .empty, ignore := ign }, sem := ror2Sem X.plus }
+  { env := X.env, tracker := { excl := .empty, ignore := ign }, sem := X.enc.sem }
 
 theorem matchesB_empty (path : List Bytes) : PathSpec.empty.matchesB path = false := by
   have : gmatches (PathSpec.node []) path = .no := by
@@ -290,19 +324,16 @@ theorem matchesB_empty (path : List Bytes) : PathSpec.empty.matchesB path = fals
     | cons a as => cases as <;> simp [gmatches]
   simp [PathSpec.matchesB, PathSpec.empty, this]
 
+theorem encPrim_leaf (E : TreeEnc) (p : Prim) (v : Value) (doc : Doc) (h : encPrim p v = .ok doc) :
+    treeOf E doc = E.leaf doc := by
+  cases p <;> cases v <;> simp only [encPrim, Except.ok.injEq, reduceCtorEq] at h <;> subst h <;> simp [treeOf]
+
 /-- primitives -/
 theorem prim_roundtrip (X : RTCtx) (p : Prim) (v : Value) (doc : Doc) (hv : ValOK v)
     (h : encPrim p v = .ok doc) :
-    (ror2Sem X.plus).prim p (rawOf X.esc doc) = .ok (normPrim p v) [] := by
-  cases p <;> cases v <;> simp only [encPrim, Except.ok.injEq, reduceCtorEq] at h <;> subst h <;>
-    simp only [ror2Sem, rawOf, normPrim, liftTok]
-  · simp only [ValOK] at hv; rw [tokPrim_i32 X.plus _ hv.1 hv.2]
-  · simp only [ValOK] at hv; rw [tokPrim_i64 X.plus _ hv.1 hv.2]
-  · simp only [ValOK] at hv; rw [tokPrim_f32 X.esc X.plus X.E X.F _ hv]
-  · simp only [ValOK] at hv; rw [tokPrim_f64 X.esc X.plus X.E X.F _ hv]
-  · rw [tokPrim_bool]
-  · rw [tokPrim_str X.esc X.plus X.E]
-  · rw [tokPrim_bytes X.esc X.plus X.E]
+    X.enc.sem.prim p (treeOf X.enc doc) = .ok (normPrim p v) [] := by
+  rw [encPrim_leaf X.enc p v doc h]
+  exact X.L.prim_rt p v doc hv h
 
 /-! keyed containers (records, unions, maps) -/
 
@@ -335,15 +366,15 @@ theorem valFor_mem (g : Bytes × Ty × Value → Value) (items : List (Bytes × 
 
 /-- reading back the sorted entries of a keyed container, given that each entry's callback
 succeeds with the entry's normalised value -/
-theorem keyed_roundtrip (esc : Bytes → Bytes) (tc : TCfg)
-    (hkey : ∀ k, tc.sem.key (ror2Str esc k) = some k) (htr : ∀ sc, tc.tracker.check sc = .no)
+theorem keyed_roundtrip (E : TreeEnc) (hnn : ∀ d, E.leaf d ≠ .null) (tc : TCfg)
+    (hkey : ∀ k, tc.sem.key (E.key k) = some k) (htr : ∀ sc, tc.tracker.check sc = .no)
     (scopeR : List Seg) (mode : MapMode) (items : List (Bytes × Ty × Value))
     (docOf : Bytes × Ty × Value → Doc) (g : Bytes × Ty × Value → Value)
     (hnd : (items.map (·.1)).Nodup)
     (hread : ∀ it ∈ items, ∀ acc seen,
-      treeCallbackWith (fun ty => treeRead tc false (scopeR ++ [Seg.key it.1]) ty (rawOf esc (docOf it)))
+      treeCallbackWith (fun ty => treeRead tc false (scopeR ++ [Seg.key it.1]) ty (treeOf E (docOf it)))
         mode acc seen it.1 = .ok (setEntry acc it.1 (g it)) []) :
-    treeReadEntries tc scopeR mode [] [] (rawOfKvs esc (sortByKey (items.map (fun it => (it.1, docOf it))))) =
+    treeReadEntries tc scopeR mode [] [] (treeOfKvs E (sortByKey (items.map (fun it => (it.1, docOf it))))) =
       .ok (sortByKey (items.map (fun it => (it.1, g it))),
            (sortByKey (items.map (fun it => (it.1, docOf it)))).map (·.1)) [] := by
   let kvs := items.map (fun it => (it.1, docOf it))
@@ -358,7 +389,7 @@ theorem keyed_roundtrip (esc : Bytes → Bytes) (tc : TCfg)
   have hnd' : (ts.map (·.1)).Nodup := by
     rw [hkeys]; exact keysNodup_sortByKey kvs hkvsnd
   have hgood : ∀ t ∈ ts, ∀ acc seen,
-      treeCallbackWith (fun ty => treeRead tc false (scopeR ++ [Seg.key t.1]) ty (rawOf esc t.2.1))
+      treeCallbackWith (fun ty => treeRead tc false (scopeR ++ [Seg.key t.1]) ty (treeOf E t.2.1))
         mode acc seen t.1 = .ok (setEntry acc t.1 t.2.2) [] := by
     intro t ht acc seen
     simp only [ts, List.mem_map] at ht
@@ -369,7 +400,7 @@ theorem keyed_roundtrip (esc : Bytes → Bytes) (tc : TCfg)
     simp only
     rw [valFor_mem g items hnd it hit]
     exact hread it hit acc seen
-  have := readEntries_all esc tc hkey htr scopeR mode ts hgood hnd' [] [] (by simp)
+  have := readEntries_all E hnn tc hkey htr scopeR mode ts hgood hnd' [] [] (by simp)
   rw [hts1] at this
   rw [this]
   simp only [List.nil_append, hkeys]
@@ -525,8 +556,8 @@ theorem setMembers_mem (members : List (Bytes × Ty)) (ms : List (Bytes × Value
 theorem RTCtx.htr (X : RTCtx) (ign : Nat) (sc : List Seg) : (X.tc ign).tracker.check sc = .no :=
   tracker_check_empty ign sc
 
-theorem RTCtx.hkey (X : RTCtx) (ign : Nat) (k : Bytes) : (X.tc ign).sem.key (ror2Str X.esc k) = some k :=
-  decodeKey_ror2Str X.esc X.plus X.E k
+theorem RTCtx.hkey (X : RTCtx) (ign : Nat) (k : Bytes) : (X.tc ign).sem.key (X.enc.key k) = some k :=
+  X.L.key_rt k
 
 theorem excl_false (X : RTCtx) (scope : List Bytes) :
     (fun k => X.cfg.excl.matchesB (scope ++ [k])) = (fun _ => false) := by
@@ -549,7 +580,7 @@ theorem enc_noexcl_typed (X : RTCtx) (f : Nat) (scope : List Bytes) :
 theorem roundtrip_tree (X : RTCtx) (ign : Nat) : ∀ (f : Nat) (scopeW : List Bytes) (scopeR : List Seg)
     (top : Bool) (ty : Ty) (v : Value) (doc : Doc), ValOK v →
     encode X.cfg f scopeW ty v = .ok doc →
-    treeRead (X.tc ign) top scopeR ty (rawOf X.esc doc) = .ok (norm X.env f ty v) []
+    treeRead (X.tc ign) top scopeR ty (treeOf X.enc doc) = .ok (norm X.env f ty v) []
   | 0, _, _, _, _, _, _, _, h => by simp [encode] at h
   | f + 1, scopeW, scopeR, top, ty, v, doc, hv, h => by
     have ih := roundtrip_tree X ign f
@@ -567,12 +598,12 @@ theorem roundtrip_tree (X : RTCtx) (ign : Nat) : ∀ (f : Nat) (scopeW : List By
         simp only [hl, bind, Except.bind, pure, Except.pure, Except.ok.injEq] at h
         subst h
         obtain ⟨hds, hall⟩ := encodeList_all _ vs ds hl
-        simp only [rawOf, treeRead, norm]
+        simp only [treeOf, treeRead, norm]
         have hvs := valOKList_mem vs (by simpa [ValOK] using hv)
         let ts : List (Doc × Value) := vs.map (fun v => (okDoc (encode X.cfg f (scopeW ++ [Gen.wildCard]) t v), norm X.env f t v))
         have h1 : ts.map (·.1) = ds := by rw [hds]; simp [ts, List.map_map, Function.comp_def]
         have h2 : ts.map (·.2) = vs.map (norm X.env f t) := by simp [ts, List.map_map, Function.comp_def]
-        have := readItems_all X.esc (X.tc ign) scopeR t ts 0 (by
+        have := readItems_all X.enc (X.tc ign) scopeR t ts 0 (by
           intro t' ht' i
           simp only [ts, List.mem_map] at ht'
           obtain ⟨v', hv', rfl⟩ := ht'
@@ -592,12 +623,12 @@ theorem roundtrip_tree (X : RTCtx) (ign : Nat) : ∀ (f : Nat) (scopeW : List By
         obtain ⟨hkvs, hall⟩ := encodeKeyed_all _ es kvs hl
         simp only [ValOK] at hv
         have hvs := valOKKvs_mem es hv.2
-        simp only [EncCfg.finish, RTCtx.cfg, ↓reduceIte, rawOf, treeRead, norm]
+        simp only [EncCfg.finish, RTCtx.cfg, ↓reduceIte, treeOf, treeRead, norm]
         let items : List (Bytes × Ty × Value) := es.map (fun e => (e.1, t, e.2))
         have hnd : (items.map (·.1)).Nodup := by
           have := hv.1; unfold KeysNodup at this
           simpa [items, List.map_map, Function.comp_def] using this
-        have := keyed_roundtrip X.esc (X.tc ign) (X.hkey ign) (X.htr ign) scopeR (.mapOf t) items
+        have := keyed_roundtrip X.enc X.L.leaf_ne_null (X.tc ign) (X.hkey ign) (X.htr ign) scopeR (.mapOf t) items
           (fun it => okDoc (encode X.cfg f (scopeW ++ [it.1]) it.2.1 it.2.2))
           (fun it => norm X.env f it.2.1 it.2.2) hnd (by
             intro it hit acc seen
@@ -633,8 +664,8 @@ theorem roundtrip_tree (X : RTCtx) (ign : Nat) : ∀ (f : Nat) (scopeW : List By
             | some s =>
               simp only [Except.ok.injEq] at h
               subst h
-              have hstr : (X.tc ign).sem.str (rawOf X.esc (.str s)) = .ok s [] := by
-                simp [RTCtx.tc, ror2Sem, rawOf, tokString_ror2Str X.esc X.plus X.E s]
+              have hstr : (X.tc ign).sem.str (treeOf X.enc (.str s)) = .ok s [] := by
+                simpa [RTCtx.tc, treeOf] using X.L.str_rt s
               simp only [hstr, bindT]
               rw [idxOf?_of_nodup syms (X.S.enumNodup n syms hfind) _ s hs]
               dsimp only
@@ -648,8 +679,9 @@ theorem roundtrip_tree (X : RTCtx) (ign : Nat) : ∀ (f : Nat) (scopeW : List By
           · next hlen =>
             simp only [Except.ok.injEq] at h
             subst h
-            have hb : (X.tc ign).sem.prim .bytes (rawOf X.esc (.bytes b)) = .ok (.bytes b) [] := by
-              simp [RTCtx.tc, ror2Sem, rawOf, liftTok, tokPrim_bytes X.esc X.plus X.E b]
+            have hb : (X.tc ign).sem.prim .bytes (treeOf X.enc (.bytes b)) = .ok (.bytes b) [] := by
+              have := X.L.prim_rt .bytes (.bytes b) (.bytes b) (by simp [ValOK]) rfl
+              simpa [RTCtx.tc, treeOf, normPrim] using this
             simp only [hb, bindT, hlen, ↓reduceIte]
           · simp at h
         | record incs own =>
@@ -672,8 +704,8 @@ theorem roundtrip_tree (X : RTCtx) (ign : Nat) : ∀ (f : Nat) (scopeW : List By
                 rw [← hfields]; exact X.S.fieldsNodup n incs own hfind
               have hnd : (triples.map (·.1)).Nodup := hsub.nodup hfnd
               simp only [ValOK] at hv
-              simp only [EncCfg.finish, RTCtx.cfg, ↓reduceIte, rawOf]
-              have := keyed_roundtrip X.esc (X.tc ign) (X.hkey ign) (X.htr ign) scopeR (.record fields) triples
+              simp only [EncCfg.finish, RTCtx.cfg, ↓reduceIte, treeOf]
+              have := keyed_roundtrip X.enc X.L.leaf_ne_null (X.tc ign) (X.hkey ign) (X.htr ign) scopeR (.record fields) triples
                 (fun it => okDoc (encode X.cfg f (scopeW ++ [it.1]) it.2.1 it.2.2))
                 (fun it => norm X.env f it.2.1 it.2.2) hnd (by
                   intro it hit acc seen
@@ -728,7 +760,7 @@ theorem roundtrip_tree (X : RTCtx) (ign : Nat) : ∀ (f : Nat) (scopeW : List By
                 obtain ⟨hkvs, hall⟩ := encodeTyped_all _ _ kvs hl
                 have hlen := setMembers_length members ms
                 simp only [ValOK] at hv
-                simp only [EncCfg.finish, RTCtx.cfg, ↓reduceIte, rawOf]
+                simp only [EncCfg.finish, RTCtx.cfg, ↓reduceIte, treeOf]
                 cases hsm : setMembers members ms with
                 | nil =>
                   rw [hsm] at hkvs hlen
@@ -737,7 +769,7 @@ theorem roundtrip_tree (X : RTCtx) (ign : Nat) : ∀ (f : Nat) (scopeW : List By
                   have hn : hasNull = true := by
                     have : countSet ms members = 0 := by simpa using hlen.symm
                     simpa [this] using hzero
-                  simp [sortByKey, rawOfKvs, treeReadEntries, bindT, hn]
+                  simp [sortByKey, treeOfKvs, treeReadEntries, bindT, hn]
                 | cons t rest =>
                   rw [hsm] at hkvs hlen hall
                   have hrest : rest = [] := by
@@ -750,8 +782,8 @@ theorem roundtrip_tree (X : RTCtx) (ign : Nat) : ∀ (f : Nat) (scopeW : List By
                   obtain ⟨hm, hlk⟩ := setMembers_mem members ms t (by rw [hsm]; simp)
                   have hlook : members.lookup t.1 = some t.2.1 :=
                     lookup_of_nodup members (X.S.membersNodup n hasNull members hfind) (t.1, t.2.1) hm
-                  simp only [sortByKey, insertByKey, rawOfKvs]
-                  rw [treeReadEntries_cons _ _ _ _ _ _ _ _ (rawOf_ne_null X.esc _), X.hkey ign]
+                  simp only [sortByKey, insertByKey, treeOfKvs]
+                  rw [treeReadEntries_cons _ _ _ _ _ _ _ _ (treeOf_ne_null X.enc X.L.leaf_ne_null _), X.hkey ign]
                   simp only [X.htr ign, treeCallbackWith, List.isEmpty_nil, Bool.not_true, Bool.false_eq_true,
                     ↓reduceIte, hlook]
                   rw [ih _ _ false t.2.1 t.2.2 _ (lookup_valOK ms hv _ _ hlk) (hall t (by simp))]
